@@ -220,6 +220,8 @@ def n_felt_from(interp, args, dty, m):
     if isinstance(a, Struct) and isinstance(a.get(0), I):
         # ContextId(u32) newtype: `context_id.0.into()`
         return felt_from_int(interp, a[0])
+    if isinstance(a, En) and len(a.fields) == 1 and isinstance(a.fields[0], I):
+        return felt_from_int(interp, a.fields[0])
     raise Unsupported(f"Felt::from({a!r})")
 
 
@@ -312,22 +314,26 @@ def n_stack_get_word(interp, args, dty, m):
 
 def n_stack_set(interp, args, dty, m):
     _stack(args).set(_pos(args[1]), deref(args[2]))
+    interp.events.append(("stack", "set"))
     return UNIT
 
 
 def n_stack_copy_state(interp, args, dty, m):
     _stack(args).copy_state(_pos(args[1]))
+    interp.events.append(("stack", "copy_state"))
     return UNIT
 
 
 def n_stack_shift_left(interp, args, dty, m):
     _stack(args).shift_left(_pos(args[1]), interp)
+    interp.events.append(("stack", "shift_left"))
     return UNIT
 
 
 def n_stack_shift_right(interp, args, dty, m):
     s = _stack(args)
     s.shift_right(_pos(args[1]), interp.models.system.clk_felt(interp))
+    interp.events.append(("stack", "shift_right"))
     return UNIT
 
 
@@ -540,6 +546,12 @@ def n_try_from_u64_felt(interp, args, dty, m):
     return En("Err", [Opaque("TryFromError")], ty="Result")
 
 
+def _ctxid(v):
+    s = Struct()
+    s[0] = v
+    return s
+
+
 def R(p):
     return re.compile(p)
 
@@ -574,7 +586,6 @@ NATIVES = [
     (R(r"RangeChecker::add_range_checks"), n_log("range", "add_range_checks")),
     (R(r"<Result<.*> as Try>::branch|<Option<.*> as Try>::branch"), n_try_branch),
     (R(r"<Result<.*> as FromResidual<.*>>::from_residual|<Option<.*> as FromResidual<.*>>::from_residual"), n_from_residual),
-    (R(r"operations::<impl Process<H>>::ensure_trace_capacity"), n_unit),
     (R(r"core::num::<impl u(?:8|16|32|64|size)>::wrapping_(add|sub|mul)"), lambda i, a, d, m: n_wrapping(m.group(1))(i, a, d, m)),
     (R(r"core::num::<impl u(?:8|16|32|64|size)>::overflowing_(add|sub|mul)"), lambda i, a, d, m: n_overflowing(m.group(1))(i, a, d, m)),
     (R(r"core::num::<impl u(?:8|16|32|64|size)>::checked_(add|sub|mul|div|rem)"), lambda i, a, d, m: n_checked(m.group(1))(i, a, d, m)),
@@ -594,6 +605,7 @@ NATIVES = [
     (R(r"Chiplets::write_mem|Chiplets::write_mem_element|Chiplets::write_mem_double"), n_chiplets("unit")),
     (R(r"Chiplets::u32and|Chiplets::u32xor"), n_chiplets("felt_result")),
     (R(r"Arguments::<'_>::\w+(?:::<.*>)?|core::fmt::rt::.*|Argument::<'_>::\w+(?:::<.*>)?"), n_opaque),
+    (R(r"<(?:system::)?ContextId as From<u32>>::from|<u32 as Into<(?:system::)?ContextId>>::into"), lambda i, a, d, m: _ctxid(a[0])),
     (R(r"<.* as Into<.*>>::into|<.* as From<.*>>::from"), n_identity),
 ]
 
@@ -611,6 +623,8 @@ def base_consts(repo):
         "miden_core::code_blocks::Call::SYSCALL_DOMAIN": Opaque("Call::SYSCALL_DOMAIN"),
         "miden_core::code_blocks::Dyn::DOMAIN": Opaque("Dyn::DOMAIN"),
         "miden_core::EMPTY_WORD": [F(Lin({}, 0)) for _ in range(4)],
+        "miden_core::stack::STACK_TOP_SIZE": I(16, "usize"),
+        "STACK_TOP_SIZE": I(16, "usize"),
         "core::num::<impl u32>::MAX": I(2**32 - 1, "u32"),
         "core::num::<impl u64>::MAX": I(2**64 - 1, "u64"),
         "core::num::<impl u16>::MAX": I(2**16 - 1, "u16"),
